@@ -1196,6 +1196,28 @@ class GroupCoordinator(BaseCoordinator):
 
         request = OffsetFetchRequest(self.group_id, list(partitions_by_topic.items()))
         response = await self._send_req(request)
+        # Since v2 group level errors are reported in the top level field only,
+        # with no partition entries at all. Without this check such a reply would
+        # read as "nothing committed" for every requested partition.
+        if response.API_VERSION >= 2:
+            error_type = Errors.for_code(response.error_code)
+            if error_type is not Errors.NoError:
+                log.debug(
+                    "Error fetching offsets for group %s: %s", self.group_id, error_type
+                )
+                if error_type is Errors.GroupLoadInProgressError:
+                    # just retry
+                    raise error_type()
+                elif error_type is Errors.NotCoordinatorForGroupError:
+                    # re-discover the coordinator and retry
+                    self.coordinator_dead()
+                    raise error_type()
+                elif error_type is Errors.GroupAuthorizationFailedError:
+                    raise error_type(self.group_id)
+                elif getattr(error_type, "retriable", False):
+                    raise error_type()
+                else:
+                    raise Errors.KafkaError(repr(error_type()))
         offsets = {}
         for topic, topic_partitions in response.topics:
             for partition, offset, metadata, error_code in topic_partitions:
